@@ -183,6 +183,21 @@ func sizeRefusal(h *ssa.Function, ret *ssa.Return, lib string) bool {
 	if sizeParam == nil {
 		return false
 	}
+	// the refusal is pronounced by a helper: `if err := checkFormatPrecision(precision); err != nil { return "", err }`
+	res := retResults(ret)
+	if len(res) > 0 {
+		if call, ok := res[len(res)-1].(*ssa.Call); ok {
+			if hf := call.Common().StaticCallee(); hf != nil && isRepoFn(hf) && len(hf.Blocks) > 0 {
+				for ai, a := range call.Common().Args {
+					if a == sizeParam && ai < len(hf.Params) {
+						if ok, k := paramBoundByHelper(hf, hf.Params[ai]); ok && k >= 1074 {
+							return true
+						}
+					}
+				}
+			}
+		}
+	}
 	found := false
 	eachInstr(h, func(r instrRef) {
 		ifi, ok := r.I.(*ssa.If)
